@@ -224,6 +224,25 @@ func c13Variants(rng *gen.Rng, i int) ([]c13Variant, [][]byte) {
 				cmdFind(wrapPS(gen.GlobalRef{Name: "gx"}, gen.SubDef{Name: nm, Body: []gen.Node{gen.Lit{S: "x"}}}, gen.Loop{Min: 0, Max: 1, Form: "maybe", Body: gen.SubCall{Name: nm}})...))
 		}
 	}
+	// an unrelated stored pattern that carries the name of the command's inline subroutine: the local declaration
+	// is the one the command means, wherever it stands (in a loop, skipped, called later)
+	shadow := gen.Global{Name: "sx", Body: []gen.Node{gen.Lit{S: "q"}, gen.Lit{S: "x"}}}
+	for k := range vs {
+		if strings.HasPrefix(vs[k].name, "inline-subroutine") && vs[k].src == "" && len(vs[k].prog.Globals) == 0 {
+			add(vs[k].name+"+same-named-stored-pattern", vs[k].equiv, []gen.Global{shadow}, vs[k].prog.Commands...)
+		}
+	}
+	// ... and the inline subroutine declared INSIDE a loop, called after it
+	if subDup {
+		lp2 := gen.Loop{Min: 1, Max: -1, Form: "atleast"}
+		a := lp2
+		a.Body = gen.Seq{Items: []gen.Node{grp, gen.Lit{S: "-"}}}
+		w := add("in-place-in-loop-then-once-more", -1, nil, cmdFind(wrapPS(a, grp)...))
+		b := lp2
+		b.Body = gen.Seq{Items: []gen.Node{gen.SubDef{Name: "sx", Body: B}, gen.Lit{S: "-"}}}
+		add("inline-subroutine-declared-in-loop-called-after", w, nil, cmdFind(wrapPS(b, gen.SubCall{Name: "sx"})...))
+		add("inline-subroutine-declared-in-loop-called-after+same-named-stored-pattern", w, []gen.Global{shadow}, cmdFind(wrapPS(b, gen.SubCall{Name: "sx"})...))
+	}
 	// three commands sharing one definition == concatenation of the commands taken alone
 	c3 := cmdFind(gen.Or{Alts: []gen.Node{gen.Lit{S: "b"}, gen.GlobalRef{Name: "gx"}}}, gen.Loop{Min: 0, Max: 1, Form: "maybe", Body: gen.GlobalRef{Name: "gx"}})
 	if !subDup {
@@ -251,7 +270,7 @@ func C13(r *drv.Run) {
 	if !quick(r) {
 		nbody, nhist = 20000, 2500
 	}
-	r.Rule = "(1) capture-free bodies B (with or, in, not in, loops, nested and recursive subroutines) in contexts prefix/suffix, inside a loop, inside an alternation: B in place == {B}=s (+0..2 calls) == set g to pattern B referenced 1..3 times, also referenced before AND inside a counted loop (exactly 2 / at least 2 / between 3 and 4), first mentioned inside a zero-count loop and then used, a stored pattern built on another one whose name is defined again before the command, an inline subroutine of the command named like one inside the stored pattern, all also judged by the reference matcher; (2) a three-command source sharing one definition == concatenation of its commands compiled alone; a source that defines the name AGAIN with another body between its commands == concatenation of each command compiled alone with the definition in force where it stands; (3) recorded sequential histories of Compile/Run calls in random order over a pool of sources (including sources whose compilation fails in the parser, the regex sub-parser, the generator and the type checker) and texts, checked offline against the pure-function model: each call's result digest equals the digest the same call produced alone in a fresh worker process; (4) canonical bytecode digest (loop ids normalised) unchanged by runs and equal across recompilations. Non-trivial = variant pair with >= 1 match compared / history call whose isolated result has >= 1 match; distinct by (variant source, text) and (history, call index)."
+	r.Rule = "(1) capture-free bodies B (with or, in, not in, loops, nested and recursive subroutines) in contexts prefix/suffix, inside a loop, inside an alternation: B in place == {B}=s (+0..2 calls) == set g to pattern B referenced 1..3 times, also referenced before AND inside a counted loop (exactly 2 / at least 2 / between 3 and 4), first mentioned inside a zero-count loop and then used, a stored pattern built on another one whose name is defined again before the command, an inline subroutine of the command named like one inside the stored pattern, every inline-subroutine variant again next to an unrelated stored pattern of the same name, an inline subroutine declared inside a loop and called after it, all also judged by the reference matcher; (2) a three-command source sharing one definition == concatenation of its commands compiled alone; a source that defines the name AGAIN with another body between its commands == concatenation of each command compiled alone with the definition in force where it stands; (3) recorded sequential histories of Compile/Run calls in random order over a pool of sources (including sources whose compilation fails in the parser, the regex sub-parser, the generator and the type checker) and texts, checked offline against the pure-function model: each call's result digest equals the digest the same call produced alone in a fresh worker process; (4) canonical bytecode digest (loop ids normalised) unchanged by runs and equal across recompilations. Non-trivial = variant pair with >= 1 match compared / history call whose isolated result has >= 1 match; distinct by (variant source, text) and (history, call index)."
 	r.Assumptions = []string{
 		"bodies are capture-free, as the property says",
 		"a body that itself declares subroutines is not duplicated textually (two declarations of one name are rejected by design)",
